@@ -282,6 +282,9 @@ func dirMailboxStorageFault(c *Ctx) {
 		for j := 0; j < n; j++ {
 			m := genMessage(c.Rng, "LA5NTA", "N0CALL", 1500)
 			m.Header.Del("Cc")
+			if _, dup := want[m.MID()]; dup {
+				continue
+			}
 			data, _ := m.Bytes()
 			want[m.MID()] = data
 			mids = append(mids, m.MID())
@@ -354,6 +357,7 @@ func dirMailboxStorageFault(c *Ctx) {
 				c.Violate("C02:dir-not-exactly-once:"+variant, fmt.Sprintf("message %s is in the receiver's inbox %d times after a session with failing storage and a clean one", mid, have[mid]), rep)
 			}
 		}
+		n = len(mids)
 		if ha.OutboxCount() != 0 || ha.SentCount() != n {
 			c.Violate("C02:dir-not-marked-sent:"+variant, fmt.Sprintf("sender outbox=%d sent=%d after the clean retry, want 0/%d", ha.OutboxCount(), ha.SentCount(), n), rep)
 		}
@@ -379,6 +383,9 @@ func dirMailboxRetry(c *Ctx) {
 			m.Header.Del("Cc") // a P2P peer is only offered messages addressed to it alone
 			if j > 0 && j%2 == 1 && len(lastMid) > 0 && swapCase(lastMid) != lastMid {
 				m.Header.Set("Mid", swapCase(lastMid)) // a different message whose MID differs only in letter case
+			}
+			if _, dup := want[m.MID()]; dup {
+				continue // short random MIDs can collide
 			}
 			lastMid = m.MID()
 			data, _ := m.Bytes()
